@@ -499,11 +499,11 @@ fn pool_options(r: &mut Rng, n: usize, degs: &[u32]) -> Vec<(P, u8)> {
     // small but varied: levels on both sides of typical minima, threshold-straddling query security, each extension degree
     let mut v = vec![
         (P { q: 1, b: 2, g: 0, deg: degs[0], fold: 2, rem: 0 }, 3u8),
-        (P { q: 27, b: 8, g: 16, deg: *degs.last().unwrap(), fold: 4, rem: 7 }, 4),
-        (P { q: 26, b: 8, g: 16, deg: *degs.last().unwrap(), fold: 4, rem: 7 }, 4),
-        (P { q: 40, b: 4, g: 20, deg: degs[degs.len() / 2], fold: 8, rem: 31 }, 5),
-        (P { q: 39, b: 4, g: 20, deg: degs[degs.len() / 2], fold: 8, rem: 31 }, 5),
-        (P { q: 20, b: 16, g: 32, deg: *degs.last().unwrap(), fold: 2, rem: 3 }, 3),
+        (P { q: 27, b: 8, g: 8, deg: *degs.last().unwrap(), fold: 4, rem: 7 }, 4),
+        (P { q: 26, b: 8, g: 8, deg: *degs.last().unwrap(), fold: 4, rem: 7 }, 4),
+        (P { q: 40, b: 4, g: 5, deg: degs[degs.len() / 2], fold: 8, rem: 31 }, 5),
+        (P { q: 39, b: 4, g: 5, deg: degs[degs.len() / 2], fold: 8, rem: 31 }, 5),
+        (P { q: 20, b: 16, g: 10, deg: *degs.last().unwrap(), fold: 2, rem: 3 }, 3),
     ];
     while v.len() < n {
         let mut p = if r.chance(1, 2) { gen_p_threshold(r) } else { gen_p(r) };
